@@ -11,5 +11,6 @@ Definition dispatch (cmd : string) (input : string) : string :=
   | "codegen-x86" => run_codegen_x86 input
   | "stages" => run_stages input
   | "codegen-rv" => run_codegen_rv input
+  | "sem-rv" => run_sem_rv input
   | _ => "BAD - unknown command " ++ cmd ++ nl
   end.
